@@ -252,7 +252,7 @@ def register(R):
       note='two plain (non-dict) assign keys against a symbolic set of existing output keys'))
 
   R.bounded_checks[P] = [
-      ('bounded_operator_chains', 'all chains of <=3 operators from 12 (select/apply/assign/filter/sink; tuple, kwargs, nested-path, SKIP keys), fused and as named stages, vs a reference interpreter; input records untouched; sinks see every record once and are closed once'),
+      ('bounded_operator_chains', 'all chains of <=3 operators from 15 (select/apply/assign/filter/sink; tuple, kwargs, nested-path, SKIP keys), fused and as named stages, vs a reference interpreter; input records untouched; sinks see every record once and are closed once'),
       ('bounded_batch_operator', '.batch(k) alone, after select / renamed select / apply, and followed by apply: chunks of k in order, per output key, nothing lost'),
       ('bounded_chain_api', 'TreeTransform.chain: fused (same name) and chained (different names) pairs route like the operator sequence'),
       ('bounded_reserved_names', "columns literally named 'SELF' / 'SKIP' are ordinary columns for select/apply/assign/filter"),
